@@ -429,7 +429,13 @@ def run(prop, tier, replay=None):
              "outcome) triples counted by the trace spec plus distinct (type, class, outcome) triples of the "
              "replayed vectors; non-trivial = the real decoder accepted (fields compared) or panicked"
              % ("all 2^24+2^16+2^8+1" if exhaustive and prop != "C21" else "all of length <= 2, all with the 0x01 marker, a seeded sample of the rest"),
-        exhaustive=bool(exhaustive),
+        # the property quantifies over all byte strings up to 8192 octets / all legal packets: no run
+        # enumerates that completely; the subspaces that *were* enumerated completely are listed
+        exhaustive=False,
+        exhaustive_subspaces=(["all 65536 short topic ids", "MC_Codec pkt boundary packet set"] if prop == "C21" else
+                              (["all datagrams of length <= 3 (2^24+2^16+2^8+1) on the real decoder, judged by TLC"]
+                               if exhaustive else ["all datagrams of length <= 2 and all of length 3 starting with 0x01"])
+                              + ["MC_Codec tree and struct state spaces (every state replayed on the real decoder)"]),
         vectors_replayed_on_impl=acc.replayed, records_judged_by_tlc=acc.judged,
         accepted_by_real_decoder=acc.accepted, panics_observed=acc.panics,
         tlc_runs=acc.tlc_runs[:40], acceptance_differences={"/".join(k): n for k, n in acc.info.items()},
